@@ -385,7 +385,9 @@ def run_c13(ctx, fa):
 
 # ------------------------------------------------------------------------------------ C14
 def run_c14(ctx, fa):
+    from . import mcheck
     from fastavro.schema import fingerprint, to_parsing_canonical_form
+    mcheck.model_check(ctx, "MC_Rabin", {}, ["InvStep", "InvSeed", "InvLinear"], "rabin")
     import fastavro._schema_common as sc
     rnd = ctx.sub_rnd("c14")
     n = 500 if ctx.quick() else 6000
